@@ -131,6 +131,15 @@ declared local of type `Py.Err` and receives the exception.  Not combined with `
 
 `bool(e)` is the truth value of `e` (as in a condition).
 
+Constructs added for the Python representation (`Representation.repr_float` / `repr_ndarray`, profiles `pyexport.py`):
+
+* `{e!r}` in an f-string is the built-in `repr(e)` (whatever the module itself binds the name `repr` to): it is compiled
+  as the expression `builtins.repr(e)`, which an external of the profile must name (CPython's `repr(float)` is not modelled);
+* profile `genexp_as_list`: a generator expression is translated like the list comprehension with the same parts.  This
+  is right where the generator is consumed completely and at once at the place it is created (the argument of
+  `str.join`, which first makes a list of it); the profile asserts that.  With this entry the element of a comprehension
+  may raise: `[f(y) for y in l]` is `List.mapM` (elements evaluated left to right, the first exception ends it).
+
 Anything outside the subset raises `Untranslatable` - the tie is then reported as broken (never silently skipped).
 """
 from __future__ import annotations
@@ -268,8 +277,13 @@ class Fn:
         self.aux = []             # auxiliary loop definitions (text), in dependency order
         self.nloop = 0
         self.used_ext = []
-        src = textwrap.dedent(inspect.getsource(obj))
-        self.fdef = ast.parse(src).body[0]
+        src = inspect.getsource(obj)
+        try:
+            self.fdef = ast.parse(textwrap.dedent(src)).body[0]
+        except IndentationError:
+            # a method whose body contains a multi-line string literal with lines at column 0 cannot be dedented:
+            # parse it where it stands, inside a block
+            self.fdef = ast.parse("if True:\n" + src).body[0].body[0]
         if not isinstance(self.fdef, ast.FunctionDef):
             raise Untranslatable("not a function definition")
         declared = set(profile.get("locals", {})) | {n for n, _ in profile.get("params", [])}
@@ -397,6 +411,10 @@ class Fn:
         """value of a translation-time constant expression, or raise KeyError"""
         env = dict(self.glob)
         env.update(self.consts)
+        for sub in ast.walk(node):
+            # a part that the profile names by an external (`settings.alias`: the state of a mutable object) is not a constant
+            if isinstance(sub, ast.expr) and any(match_pattern(pat, sub, {}) for pat, *_ in self.ext):
+                raise KeyError("external")
         bound = {n.id for c in ast.walk(node) if isinstance(c, ast.comprehension) for n in ast.walk(c.target) if isinstance(n, ast.Name)}
         names = {n.id for n in ast.walk(node) if isinstance(n, ast.Name)} - bound
         for n in names:
@@ -732,7 +750,9 @@ class Fn:
             if len({x.ty for x in es}) != 1 or not all(x.pure for x in es):
                 raise Untranslatable(f"list literal {ast.unparse(node)}")
             return E("[" + ", ".join(x.term for x in es) + "]", f"List {paren(es[0].ty)}")
-        if isinstance(node, ast.ListComp):
+        if isinstance(node, ast.GeneratorExp) and not self.p.get("genexp_as_list"):
+            raise Untranslatable(f"generator expression (profile without `genexp_as_list`): {ast.unparse(node)}")
+        if isinstance(node, (ast.ListComp, ast.GeneratorExp)):
             g = node.generators[0]
             if len(node.generators) != 1 or g.ifs or g.is_async or not isinstance(g.target, ast.Name):
                 raise Untranslatable(f"comprehension shape: {ast.unparse(node)}")
@@ -752,7 +772,10 @@ class Fn:
             finally:
                 del self.ptypes[v]
             if not elt.pure:
-                raise Untranslatable(f"comprehension element that can raise: {ast.unparse(node.elt)}")
+                if not self.p.get("genexp_as_list"):
+                    raise Untranslatable(f"comprehension element that can raise: {ast.unparse(node.elt)}")
+                # the elements are evaluated left to right; the first exception ends the comprehension
+                return self.bind1(it, lambda x: f"(List.mapM (fun ({v} : {elem_type(it.ty)}) => {elt.term}) {x})", f"List {paren(elt.ty)}", partial=True)
             return self.bind1(it, lambda x: f"(List.map (fun ({v} : {elem_type(it.ty)}) => {elt.term}) {x})", f"List {paren(elt.ty)}")
         if isinstance(node, ast.DictComp):
             g = node.generators[0]
@@ -784,8 +807,19 @@ class Fn:
             parts = []
             for v in node.values:
                 if isinstance(v, ast.FormattedValue):
-                    if v.conversion != -1 or v.format_spec is not None:
+                    if v.conversion not in (-1, 114) or v.format_spec is not None:
                         raise Untranslatable(f"f-string conversion / format: {ast.unparse(node)}")
+                    if v.conversion == 114:
+                        # `{e!r}` is the built-in `repr(e)` whatever the module calls `repr`: it must be named by an external
+                        call = ast.Call(func=ast.Attribute(value=ast.Name(id="builtins", ctx=ast.Load()), attr="repr", ctx=ast.Load()),
+                                        args=[v.value], keywords=[])
+                        e = self.try_external(call)
+                        if e is None:
+                            raise Untranslatable(f"f-string conversion `!r` without an external for `builtins.repr(...)`: {ast.unparse(node)}")
+                        if e.ty != "String" or not e.pure:
+                            raise Untranslatable(f"f-string part of type {e.ty}: {ast.unparse(node)}")
+                        parts.append(e.term)
+                        continue
                     v = v.value
                 e = self.ce(v)
                 if e.ty != "String" or not e.pure:
